@@ -119,6 +119,7 @@ pub fn fired_kinds(plan: &Plan, r: &RunResult) -> Vec<String> {
             Item::RChunk { .. } => r.events.iter().any(|e| e.kind == 'R' && e.act == "chunk" && e.ret > 0),
             Item::Hint { .. } => r.events.iter().any(|e| e.kind == 'S' && e.act == "hint"),
             Item::FType { .. } => r.events.iter().any(|e| e.kind == 'S' && e.act == "ftype"),
+            Item::NbFifo { .. } => r.events.iter().any(|e| e.kind == 'R' && (e.act == "nbeof" || e.act == "nbagain")),
             Item::Eof { .. } | Item::Flip { .. } => r.events.iter().any(|e| e.kind == 'R'),
             Item::Kill { .. } => r.events.iter().any(|e| e.kind == 'K'),
         };
@@ -181,7 +182,12 @@ pub fn invisible_plan(rng: &mut Rng, ref_run: &RunResult) -> Plan {
                 p.items.push(Item::Hint { size: h });
                 if rng.chance(1, 3) {
                     // the script arrives through a pipe: FIFO / character device, size 0, not seekable
-                    p.items.push(Item::FType { kind: 1 + rng.below(2) as u8 });
+                    let kind = 1 + rng.below(2) as u8;
+                    p.items.push(Item::FType { kind });
+                    if kind == 1 && rng.chance(1, 2) {
+                        // a writer that is late or pauses: invisible through a blocking descriptor
+                        p.items.push(if rng.chance(1, 2) { Item::NbFifo { mode: 1, n: 0 } } else { Item::NbFifo { mode: 2, n: rng.below(4) } });
+                    }
                     if rng.chance(2, 3) {
                         p.items.push(Item::RChunk { seed: rng.next_u64() >> 1, max: 1 + rng.below(64) });
                     }
@@ -197,6 +203,7 @@ pub fn invisible_plan(rng: &mut Rng, ref_run: &RunResult) -> Plan {
         Item::RChunk { .. } => seen.insert("r".to_string()),
         Item::Hint { .. } => seen.insert("h".to_string()),
         Item::FType { .. } => seen.insert("t".to_string()),
+        Item::NbFifo { .. } => seen.insert("nb".to_string()),
         _ => true,
     });
     let _ = EINTR;
